@@ -203,6 +203,22 @@ def do_replay(prop: str, path: str) -> int:
             if model:
                 print("   model:", model[i + 1][0])
         print("final state (impl):", impl[-1]["state"])
+        if prop == "C07":
+            # the oracle's own verdict on the re-executed history: which nodes the HISTORY makes known to be sleeping
+            # (restored flags, wake signals, re-presentations - never the library's flag), and the first step that
+            # violates the property
+            from .props import gateway as gprops
+            known = gprops.c07_known_sleeping(h, impl)
+            for i, op in enumerate(h.ops):
+                if op[0] == "send" and op[1] is not None and op[1][2] == 1:
+                    node = impl[i]["nodes"].get(op[1][0])
+                    print(f"   step {i + 1}: destination {op[1][0]} known to be sleeping from the history: {op[1][0] in known[i]}; "
+                          f"the library's flag: {None if node is None else node['sleeping']}")
+            bad = gprops.c07_judge(h, impl)
+            if bad is not None:
+                print(f"reproduced: {bad[0]} (step {len(bad[1]['history']['ops'])}, writes {bad[1]['writes']})")
+            else:
+                print("NOT reproduced: the oracle has no objection to this history on this library")
         return 0
     if "sessions" in case:
         # gateway sessions on one persistence file (C05): re-executed on the implementation
